@@ -103,6 +103,9 @@ func (b *vBackend) Publish(c *Client, msg *packet.Message, ack Ack) error {
 	case 3:
 		b.failed++
 		b.mu.Unlock()
+		if vBool("queuefull") { // the refusal may be any error, also the broker's own ErrQueueFull
+			return ErrQueueFull
+		}
 		return errVBackend
 	}
 	b.mu.Unlock()
